@@ -663,6 +663,97 @@ def two_level_stream(run, drv, n_cases):
             run.oracle_ok("two_level_raises")
 
 
+def write2_stream(run, drv, n_cases):
+    """correspondence + oracle for `lazy_of_lazy[index] = value` (Model/C08Lazy2.lean lazySet2): the
+    stack of stacks, re-read from the LEAF members, after the write"""
+    from tensordict import LazyStackedTensorDict
+    rng = run.rng
+    feats = G.FEATS_PLAIN
+    fs = Raw("(feats" + "".join(" (" + " ".join([k] + [str(x) for x in f]) + ")" for k, f in feats) + ")")
+    reqs, metas = [], []
+    while len(metas) < n_cases:
+        rank = rng.choice([0, 1, 1, 2])
+        bs = tuple(rng.choice([1, 2, 3]) for _ in range(rank))
+        nin, nout = rng.randint(1, 3), rng.randint(1, 3)
+        sdin = rng.randint(0, rank)
+        sdout = rng.randint(0, rank + 1)
+        full = list(bs)
+        full.insert(sdin, nin)
+        full.insert(sdout, nout)
+        ix = G.gen_index_spec(rng, full)
+        if G.has_dup_targets(ix) or not O.no_dup_writes(ix):
+            continue
+        metas.append((bs, nin, nout, sdin, sdout, ix))
+        reqs.append(sx("c08.set2", ["bs"] + list(bs), nin, nout, sdin, sdout, fs, G.ixs_sx(ix)))
+    answers = G.ask_all(drv, reqs)
+    for (bs, nin, nout, sdin, sdout, ix), a in zip(metas, answers):
+        model = parse_sx(a)
+        case = {"bs": list(bs), "n_in": nin, "n_out": nout, "sd_in": sdin, "sd_out": sdout, "ix": ix}
+        run.case(("set2", bs, nin, nout, sdin, sdout, str(ix)))
+        with time_limit(180):
+            inners, denses, leaves = [], [], []
+            for j in range(nout):
+                L, ms = G.mk_lazy(bs, nin, sdin, feats)
+                for m in ms:
+                    for kk, _ in feats:
+                        G.get_leaf(m, kk).add_(j * 1000000)
+                inners.append(L)
+                leaves.append(ms)
+                denses.append(G.dense_of(ms, sdin))
+            LL = LazyStackedTensorDict(*inners, stack_dim=sdout)
+            DD = torch.stack(denses, sdout)
+            index = G.index_py(ix)
+            try:
+                ibs = tuple(torch.zeros(tuple(DD.batch_size))[index].shape) if DD.batch_size or ix else ()
+            except TimeoutError:
+                raise
+            except Exception:  # noqa: BLE001
+                ibs = None
+            impl, dr = ["err"], None
+            if ibs is not None:
+                value = G.mk_value(ibs, feats)
+                try:
+                    LL[index] = value.clone()
+                    after = torch.stack([G.dense_of(ms, sdin) for ms in leaves], sdout)
+                    impl = ["ok", ["sds", LL.stack_dim] + [t.stack_dim for t in LL.tensordicts]] + G.td_canon(after, feats)
+                except TimeoutError:
+                    raise
+                except Exception:  # noqa: BLE001
+                    impl = ["err"]
+                try:
+                    DD[index] = value.clone()
+                    dr = DD
+                except TimeoutError:
+                    raise
+                except Exception:  # noqa: BLE001
+                    dr = None
+        # the model covers: no integer tensor of rank >= 2 on the outer stack dim, no mask of rank >= 2 on / spanning it
+        adv = [it for it in ix if it[0] in ("tens", "mask")]
+        modelled = True
+        if adv:
+            it = adv[0]
+            pos = G.adv_position(G.expand_ell(ix, len(bs) + 2), sdout)
+            if it[0] == "tens" and pos == "on" and len(it[2]) >= 2:
+                modelled = False
+            if it[0] == "mask" and len(it[1]) >= 2 and pos in ("on", "spanning"):
+                modelled = False
+            # ... nor a mask of rank >= 2 on / spanning the INNER stack dim (outside the one-level write model)
+            pos_in = G.adv_position(G.expand_ell(ix, len(bs) + 2), sdin + (1 if sdout <= sdin else 0))
+            if it[0] == "mask" and len(it[1]) >= 2 and pos_in in ("on", "spanning"):
+                modelled = False
+        run.count("write2.outcome", impl[0] + ("" if modelled else "/outside_model"))
+        if modelled:
+            run.corr("setitem_two_level", case, impl, model)
+        if impl[0] == "ok" and dr is not None:
+            diff = G.same_td(after, dr)
+            if diff:
+                run.oracle_fail("write2", case, f"after lazy_of_lazy[index] = value the leaf members differ from the dense stack after the same write: {diff}", "write2")
+            else:
+                run.oracle_ok("write2")
+        else:
+            run.oracle_ok("write2_raises")
+
+
 def shape2_stream(run, drv, n_cases):
     """correspondence + oracle for unsqueeze / permute / transpose on a lazy stack of lazy stacks:
     both stack dims of the result, the batch size and every value"""
@@ -1077,6 +1168,7 @@ def main():
     misc_stream(run, drv, 600 if quick else 6000)
     two_level_stream(run, drv, 500 if quick else 8000)
     shape2_stream(run, drv, 300 if quick else 5000)
+    write2_stream(run, drv, 300 if quick else 5000)
     apply_stream(run, drv, 400 if quick else 6000)
     resize_stream(run, drv, 500 if quick else 8000)
     out_stream(run, drv, 300 if quick else 5000)
